@@ -406,11 +406,17 @@ def settings_merge():
     META = dict(core['METADATA'])
     out = []
     arg_sets = [()] + [(k,) for k in sorted(DEFAULTS)] + [('size_limit', 'cull_limit', 'disk_min_file_size')]
-    for stored_present in (False, True):
-        for given in arg_sets:
-            def run(st, stored_present=stored_present, given=given):
+    # `extra`: a Disk subclass with a constructor argument of its own (JSONDisk's compress_level); its
+    # disk_* setting is not one of DEFAULT_SETTINGS but is stored, restored and applied like the others
+    cells = [(sp, g, False) for sp in (False, True) for g in arg_sets] + \
+            [(sp, g, True) for sp in (False, True) for g in ((), ('disk_compress_level',), ('size_limit',))]
+    for stored_present, given, extra in cells:
+        if True:
+            def run(st, stored_present=stored_present, given=given, extra=extra):
                 it = ctx.interp(st)
                 stored = {k: Opaque('other', st.fresh('stored_' + k, OTHER)) for k in DEFAULTS} if stored_present else None
+                if stored is not None and extra:
+                    stored['disk_compress_level'] = Opaque('other', st.fresh('stored_disk_compress_level', OTHER))
                 if stored is not None:
                     stored['eviction_policy'] = 'least-recently-used'
                     stored['tag_index'] = 1
@@ -452,13 +458,15 @@ def settings_merge():
                 st.ghost.update(stored=stored, args=args)
                 try:
                     it.call(ctx.func('diskcache.core.Cache.__init__'),
-                            [obj, st.fresh_sv('dir', 'str'), st.fresh_sv('timeout', 'real'), ctx.cls('diskcache.core.Disk')], dict(args))
+                            [obj, st.fresh_sv('dir', 'str'), st.fresh_sv('timeout', 'real'),
+                             ctx.cls('diskcache.core.JSONDisk' if extra else 'diskcache.core.Disk')], dict(args))
                 finally:
                     for h in ('_sql', '_sql_retry', 'reset', 'close'):
                         ctx.hooks.pop('diskcache.core.Cache.' + h, None)
                 return obj
             for n, p in enumerate(explore(run)):
-                base = 'C18.init.settings_merge[stored=%s,args=%s]#%d' % (stored_present, ','.join(given) or '-', n)
+                base = 'C18.init.settings_merge[%sstored=%s,args=%s]#%d' % ('JSONDisk,' if extra else '', stored_present,
+                                                                             ','.join(given) or '-', n)
                 if p.kind != 'return':
                     out.append(R(base, False, 'Cache.__init__', 'raises %r' % (p.value,), path=p.decisions))
                     continue
@@ -473,8 +481,11 @@ def settings_merge():
                 for w_ in writes:
                     k_, v_ = w_['params']
                     written[k_] = v_
-                applied = {r['key']: r['value'] for r in resets if r['key'] in DEFAULTS}
-                for k in DEFAULTS:
+                names = list(DEFAULTS)
+                if extra and ('disk_compress_level' in args or stored is not None):
+                    names.append('disk_compress_level')
+                applied = {r['key']: r['value'] for r in resets if r['key'] in names}
+                for k in names:
                     want = args[k] if k in args else (stored[k] if stored is not None else DEFAULTS[k])
                     for nm, got in (('written back', written.get(k, 'ABSENT')), ('applied', applied.get(k, 'ABSENT'))):
                         same = got is want or (not isinstance(want, Opaque) and not isinstance(got, Opaque) and got == want and type(got) is type(want))
@@ -486,11 +497,17 @@ def settings_merge():
                     if not any(i['params'][0] == k and i['params'][1] == META[k] for i in ignores):
                         prob = prob or 'metadata key %s is not initialised with INSERT OR IGNORE' % k
                 disk = p.value.fields.get('_disk')
-                if not (isinstance(disk, Obj) and disk.cls is ctx.cls('diskcache.core.Disk')):
+                if not (isinstance(disk, Obj) and disk.cls is ctx.cls('diskcache.core.JSONDisk' if extra else 'diskcache.core.Disk')):
                     prob = prob or 'no Disk instance'
                 else:
-                    for k, attr in (('disk_min_file_size', 'min_file_size'), ('disk_pickle_protocol', 'pickle_protocol')):
-                        want = args[k] if k in args else (stored[k] if stored is not None else DEFAULTS[k])
+                    attrs = [('disk_min_file_size', 'min_file_size'), ('disk_pickle_protocol', 'pickle_protocol')]
+                    if extra:
+                        attrs.append(('disk_compress_level', 'compress_level'))
+                    for k, attr in attrs:
+                        if k == 'disk_compress_level' and k not in args and stored is None:
+                            want = 1            # JSONDisk's own default
+                        else:
+                            want = args[k] if k in args else (stored[k] if stored is not None else DEFAULTS[k])
                         got = disk.fields.get(attr)
                         if not (got is want or (not isinstance(want, Opaque) and got == want)):
                             prob = prob or 'Disk.%s is %r, expected %r' % (attr, got, want)
